@@ -8,6 +8,7 @@ make at least one obligation of the named function fail (refuted or undecided - 
 IA = "tola.assembly.indexed_assembly"
 FR = "tola.assembly.fragment"
 SC = "tola.assembly.scaffold"
+AS = "tola.assembly.assembly"
 OR = "tola.assembly.overlap_result"
 FM = "tola.assembly.format"
 FIM = "tola.fasta.index"
@@ -39,6 +40,14 @@ MUTANTS = [
     ("C19", FR + ".Fragment.gap_between", FR, "if gap_start < gap_end:", "if gap_start <= gap_end:"),
     ("C19", FR + ".Fragment.abuts", FR, "self.end + 1 == othr.start or othr.end + 1 == self.start", "self.end + 1 == othr.start"),
     ("C19", FR + ".Fragment.__init__", FR, "if self.start > self.end:", "if self.start > self.end + 1:"),
+    ("C19", AS + ".Assembly.find_overlapping_fragments", AS, "for j in range(i + 1, lgth):", "for j in range(i, lgth):"),
+    ("C19", AS + ".Assembly.find_overlapping_fragments", AS, "for j in range(i + 1, lgth):", "for j in range(i + 2, lgth):"),
+    ("C19", AS + ".Assembly.find_overlapping_fragments", AS, "for i in range(0, lgth):", "for i in range(1, lgth):"),
+    ("C19", AS + ".Assembly.find_overlapping_fragments", AS, "compare_func(frags[i], frags[j])", "compare_func(frags[j], frags[i])"),
+    ("C19", AS + ".Assembly.find_overlapping_fragments", AS, "if v1[0].overlaps(v2[0]):", "if v1[0].overlaps(v1[0]):"),
+    ("C19", AS + ".Assembly.find_overlapping_fragments", AS, "return over_pairs if over_pairs else None", "return over_pairs"),
+    ("C19", AS + ".Assembly.find_overlapping_fragments", AS, "frags.extend((x, scffld) for x in scffld.fragments())", "frags.extend((x, self.scaffolds[0]) for x in scffld.fragments())"),
+    ("C19", SC + ".Scaffold.fragments", SC, "            if isinstance(row, Fragment):\n                yield row", "            if not isinstance(row, Gap) or row.length == 0:\n                yield row"),
     # C11 / C14
     ("C14", FR + ".Fragment.reverse", FR, "-1 * self.strand", "self.strand"),
     ("C11", FR + ".Fragment.junction_tuple", FR, "return othr.name, othr.end, self.name, self.start", "return self.name, self.end, othr.name, othr.start"),
